@@ -216,7 +216,7 @@ pub fn run(ctx: &Ctx) -> Report {
     rep.exhaustive = Some(true);
     rep.expected_sets = vec![("mode_level", 12), ("versions_chosen", 480)];
     rep.required_sets = vec![("mode_level", 12), ("versions_chosen", 480)];
-    rep.min_evaluations = 86_412;
+    rep.min_evaluations = if crate::relstage::is_child() { 25_000 } else { 86_412 };
     rep.assumptions = vec![
         "exhaustive refers to (length 0..=7200 x mode x level) with automatic version (and x forced version in the thorough tier); payload content is class-representative (ramp / random), not enumerated".into(),
         "mask is forced in this workload to avoid 8x scoring cost; version selection happens before masking".into(),
